@@ -11,7 +11,7 @@ def showKVs (m : List (Bytes × Bytes)) : String :=
 def showReq (r : Req) : String :=
   "m=" ++ methodStr r.method ++ " path=" ++ hexOfBytes r.url.path ++ " params=" ++ showKVs r.url.params ++
   " query=" ++ showKVs r.url.query ++ " frag=" ++ hexOfBytes r.url.frag ++ " ver=" ++ verStr r.ver ++
-  " hdr=" ++ showKVs r.headers ++ " body=" ++ hexOfBytes r.body
+  " hdr=" ++ showKVs r.headers ++ " body=" ++ hexOfBytes r.body ++ " str=" ++ hexOfBytes r.render
 
 def showSt : St → String
   | .init => "init" | .startLine => "startline" | .heads => "heads" | .all => "all" | .fail => "fail"
@@ -58,11 +58,30 @@ def fnv (bs : Bytes) : UInt32 := bs.foldl (fun h b => (h ^^^ b.toUInt32) * 16777
 def hex32 (v : UInt32) : String :=
   String.ofList ((List.range 8).map fun i => hexDigit ((v.toNat / 16 ^ (7 - i)) % 16))
 
-/-- bytes the client received during the op; large outputs as length + FNV-1a digest -/
+/-- bytes the client received during the op (what the kernel delivered); large outputs as
+length + FNV-1a digest -/
 def showOut (before after : Pipe) : List String :=
-  let newly := ((after.written.drop before.written.length).map (·.2)).flatten
+  let newly := after.peerBytes.drop before.peerBytes.length
   [if newly.length > 4096 then "P out len=" ++ toString newly.length ++ " fnv=" ++ hex32 (fnv newly)
    else "P out " ++ hexOfBytes newly] ++ (if before.valid && !after.valid then ["P eof"] else [])
+
+def parseKVs? (w : String) : Option (List (Bytes × Bytes)) :=
+  if w == "-" then some [] else
+  (w.splitOn ",").foldlM (init := []) fun m item =>
+    match item.splitOn ":" with
+    | [k, v] => match bytesOfHex k, bytesOfHex v with
+      | some k, some v => some (mapInsert k v m)
+      | _, _ => none
+    | _ => none
+
+/-- a handler completes request i; in spec mode (after `chalfS`) the server closes once nothing is outstanding -/
+def doDone (tag : String) (s : Server) (i : Nat) (r : Respond) : Option (Server × List String) :=
+  match s.done i r with
+  | none => none
+  | some s' =>
+    let s'' := if s.halfSpec && s'.outstanding.isEmpty && s'.pipe.valid then { s' with pipe := s'.pipe.disconnect } else s'
+    some (s'', ["B " ++ tag ++ " " ++ " ".intercalate (pipeTags s.pipe s''.pipe ++ (if s.pipe.wbroken then ["after-write-error"] else []))]
+               ++ showOut s.pipe s''.pipe)
 
 def reqLines (startIdx : Nat) (evs : List Ev) : List String :=
   let rs := reqsOf evs
@@ -101,26 +120,49 @@ def stepLine (m : Mode) (line : String) : Mode × List String :=
     match i.toNat?, bytesOfHex h, m with
     | some i, some b, .server s =>
       if (s.syncs.lookup i).isSome then (m, ["bad-op"])
-      else (.server { s with syncs := (i, b) :: s.syncs }, ["P sync"])
+      else (.server { s with syncs := (i, { status := 200, body := b }) :: s.syncs }, ["P sync"])
     | _, _, _ => (m, ["bad-op"])
   | ["seg", h] =>
     match bytesOfHex h, m with
     | some b, .server s =>
       if b.isEmpty then (m, ["bad-op"]) else
+      if s.halfSpec then (m, ["B seg-after-half-close", "P out -"]) else
       let (s', ls) := doSeg s b; (.server s', ls)
     | _, _ => (m, ["bad-op"])
   | ["doneN", i, n, b] =>
     match i.toNat?, n.toNat?, b.toNat?, m with
     | some i, some n, some b, .server s =>
       if n > 2000000 || b > 255 then (m, ["bad-op"]) else
-      match s.done i (List.replicate n (UInt8.ofNat b)) with
+      match doDone "doneN" s i { status := 200, body := List.replicate n (UInt8.ofNat b) } with
       | none => (m, ["bad-op"])
-      | some s' => (.server s', ["B doneN " ++ " ".intercalate (pipeTags s.pipe s'.pipe)] ++ showOut s.pipe s'.pipe)
+      | some (s', ls) => (.server s', ls)
     | _, _, _, _ => (m, ["bad-op"])
+  | ["done", i, h] =>
+    match i.toNat?, bytesOfHex h, m with
+    | some i, some b, .server s =>
+      match doDone "done" s i { status := 200, body := b } with
+      | none => (m, ["bad-op"])
+      | some (s', ls) => (.server s', ls)
+    | _, _, _ => (m, ["bad-op"])
+  | ["doneR", i, code, kvs, h] =>
+    match i.toNat?, code.toNat?, parseKVs? kvs, bytesOfHex h, m with
+    | some i, some code, some hdrs, some b, .server s =>
+      if code > 999 then (m, ["bad-op"]) else
+      match doDone "doneR" s i { status := code, headers := hdrs, body := b } with
+      | none => (m, ["bad-op"])
+      | some (s', ls) => (.server s', ls)
+    | _, _, _, _, _ => (m, ["bad-op"])
+  | ["rel", i] =>
+    match i.toNat?, m with
+    | some i, .server s =>
+      match doDone "rel-untouched-404" s i {} with
+      | none => (m, ["bad-op"])
+      | some (s', ls) => (.server s', ls)
+    | _, _ => (m, ["bad-op"])
   | ["cclose"] =>
     match m with
     | .server s =>
-      match s.cclose none with
+      match s.cclose none false with
       | none => (m, ["bad-op"])
       | some s' => (.server s', ["B cclose " ++ (if s.pipe.valid then "peer-close-live" else "peer-close-after-drop") ++
                                   (if s.outstanding.isEmpty then "" else " peer-close-outstanding"), "P closed"])
@@ -128,17 +170,46 @@ def stepLine (m : Mode) (line : String) : Mode × List String :=
   | ["dclose", i, h] =>
     match i.toNat?, bytesOfHex h, m with
     | some i, some b, .server s =>
-      match s.cclose (some (i, b)) with
+      match s.cclose (some (i, { status := 200, body := b })) false with
       | none => (m, ["bad-op"])
       | some s' => (.server s', ["B dclose same-pass-commit-and-peer-close", "P closed"])
     | _, _, _ => (m, ["bad-op"])
-  | ["done", i, h] =>
+  | ["dcloseN", i, n, b] =>
+    match i.toNat?, n.toNat?, b.toNat?, m with
+    | some i, some n, some b, .server s =>
+      if n > 2000000 || b > 255 then (m, ["bad-op"]) else
+      match s.cclose (some (i, { status := 200, body := List.replicate n (UInt8.ofNat b) })) false with
+      | none => (m, ["bad-op"])
+      | some s' => (.server s', ["B dcloseN peer-close-with-unsent-bytes", "P closed"])
+    | _, _, _, _ => (m, ["bad-op"])
+  | ["cdone", i, h] =>
     match i.toNat?, bytesOfHex h, m with
     | some i, some b, .server s =>
-      match s.done i b with
+      match s.cclose (some (i, { status := 200, body := b })) true with
       | none => (m, ["bad-op"])
-      | some s' => (.server s', ["B done " ++ " ".intercalate (pipeTags s.pipe s'.pipe)] ++ showOut s.pipe s'.pipe)
+      | some s' => (.server s', ["B cdone commit-after-peer-close-epipe", "P closed"])
     | _, _, _ => (m, ["bad-op"])
+  | ["chalf"] =>
+    match m with
+    | .server s =>
+      match s.chalf with
+      | none => (m, ["bad-op"])
+      | some s' => (.server s', ["B chalf " ++ (if s.pipe.valid then (if s.outstanding.isEmpty then "half-close-idle" else "half-close-outstanding") else "half-close-after-drop")]
+                     ++ showOut s.pipe s'.pipe)
+    | _ => (m, ["bad-op"])
+  | ["chalfS"] =>
+    -- what the PROPERTY asks for: outstanding responses are still written, then the server closes
+    match m with
+    | .server s =>
+      if s.cclosed then (m, ["bad-op"]) else
+      let s1 : Server := { s with halfSpec := true, conn := { s.conn with dead := true, buf := [] } }
+      let s2 := if s1.outstanding.isEmpty && s1.pipe.valid then { s1 with pipe := s1.pipe.disconnect } else s1
+      (.server s2, ["B chalfS"] ++ showOut s.pipe s2.pipe)
+    | _ => (m, ["bad-op"])
+  | ["wfail"] =>
+    match m with
+    | .server s => (.server s.wfail, ["B wfail", "P wfail"])
+    | _ => (m, ["bad-op"])
   | _ => (m, ["bad-op"])
 
 def main : IO Unit := runDriver Mode.fresh stepLine
